@@ -1030,6 +1030,12 @@ func clsRun(c *checkCtx, sc clsScenario, timing int) *clsExec {
 			st.Close()
 		}
 		uninstallCtl()
+		if atomic.LoadInt64(&x.deferredN) > 0 {
+			// a callback goroutine may still be between OnLocalClose and the peer notification of its deferred close (the library's
+			// teardown does not wait for it); no verdict depends on this pause, it only keeps that goroutine off a torn-down session
+			fenceN(1)
+			time.Sleep(500 * time.Microsecond)
+		}
 		p.close()
 	}()
 
